@@ -25,7 +25,9 @@ CHECKS = {
              "in messages. Tie: per-run comparison of the whole ordered error list of the real validators with the "
              "model, plus a direct oracle on the implementation (path resolution, fact, message text).",
         note=COMMON_NOTE + "Message wording is not modelled, only which path is printed (checked by the oracle on "
-             "the real Formatter). Float facts use Coq's FloatAxioms (mul_spec, eqb_spec, SF2Prim_Prim2SF).",
+             "the real Formatter). Float facts use Coq's FloatAxioms (mul_spec, eqb_spec, SF2Prim_Prim2SF). Open known "
+             "finding F35 (an error below a dict key that hashes by identity holds a copy of the key; outside the "
+             "model's value universe, reproduced by a direct probe).",
         technique="Coq proof (Forall-invariant by nested induction) + vm_compute correspondence + direct oracle",
         design="6 C03"),
     "C08": dict(
@@ -35,7 +37,7 @@ CHECKS = {
              "every position, exhaustive leaf-schema x zoo grid; raises/returns and error counts compared with the "
              "model; oracle: no exception, non-empty messages, validate_or_fail/format_result vs error list.",
         note=COMMON_NOTE + "Objects whose own special methods raise are excluded, as the property says. Formatter "
-             "wording not modelled (non-emptiness checked on the real Formatter).",
+             "wording not modelled (non-emptiness checked on the real Formatter). F03, F28, F34 repaired by fix: commits.",
         technique="Coq proof (partial-vs-total validator agreement) + vm_compute correspondence + direct oracle",
         design="6 C08"),
     "C14": dict(
@@ -131,7 +133,9 @@ CHECKS = {
              "Tie: model fed the ast view (line, piece) of generated modules, predicted statement list vs "
              "ast.parse(output); oracle on /repo: output parses, non-import statements identical, bindings equal.",
         note=COMMON_NOTE + "Python's grammar / ast positions trusted (ast_view). F21 (shared physical line) and F27 "
-             "(form-feed line splitting) were repaired by fix: commits; the model mirrors the column splice.",
+             "(form-feed line splitting) were repaired by fix: commits; the model mirrors the column splice. Open known "
+             "finding F36 (one import binding the same local name twice is regrouped, changing its last binding). "
+             "The file layer (migrate_v1_to_v2 over a directory) is exercised by a direct probe only.",
         technique="Coq proof (reflection on regenerated tables + splice/list induction) + vm_compute correspondence + direct oracle",
         design="6 C19"),
     "C13": dict(
@@ -158,7 +162,8 @@ CHECKS = {
              "tree), compared wrapped vs unwrapped on validate (errors, paths, messages, both validators), generate "
              "(same tape), represent (text) and substitute (outcome, erased result).",
         note=COMMON_NOTE + "Partial in the brief's sense: keyword forwarding by CPython is runtime behaviour the model "
-             "cannot exhibit; the embedding comparison observes it.",
+             "cannot exhibit; the embedding comparison observes it (four forwarding types: hooks in the class body, from a "
+             "mixin, from a custom parent, **kwargs-only). F33 (explicit empty path replaced) repaired by a fix: commit.",
         technique="Coq proof (erasure commutes with each visitor, nested induction) + vm_compute correspondence + wrapped-vs-unwrapped differential oracle",
         design="6 C16"),
     "C10": dict(
@@ -172,7 +177,7 @@ CHECKS = {
              "boundary universe run on /repo and compared with the model; oracle: exception class, receiver unchanged, "
              "validate(result, value), re-declaration rejected.",
         note=COMMON_NOTE + "Python arity errors (TypeError) are outside the property (arity_ok). F10 (NaN), "
-             "F12, F13 repaired by fix: commits.",
+             "F12, F13, F32 (deeply nested pattern: RecursionError) repaired by fix: commits.",
         technique="Coq proof (guard-ladder case analysis + invariant preservation) + vm_compute correspondence over enumerated chains + direct oracle",
         design="6 C10"),
     "C11": dict(
@@ -260,7 +265,8 @@ CHECKS = {
              "PYTHONHASHSEED, all outputs identical; the in-process run with the real RNG recorded as a tape is "
              "replayed by the model.",
         note=COMMON_NOTE + "F18 is an open known finding: the repair (order-preserving filter) cannot be made without "
-             "editing four existing tests that pin the hash-ordered string.",
+             "editing four existing tests that pin the hash-ordered string. F37 (a NaN seed: random.seed hashes it by "
+             "identity) is an open known finding about the interpreter's RNG seeding.",
         technique="Coq proof (pointwise equality of tape computations across worlds, nested induction) + refutation witness + multi-interpreter differential oracle + recorded-tape correspondence",
         design="6 C17"),
 }
